@@ -642,6 +642,34 @@ Proof.
   apply filter_ext. intros p. rewrite (eval_cond_schema c1 c2); auto.
 Qed.
 
+(* ------------------------------------------------------------------ hint queries (hash sharding) *)
+Theorem hint_prune_sound_proof : forall v c g cond p s,
+  v_or v = true -> (v_and v = true \/ match cond with Some e => parser_image e | None => True end) ->
+  c_typ c = Hash -> wf_group c g -> wf_point p ->
+  (c_sk c = [] -> match cond with
+                  | Some e => forall ts, cond_tags v (c_tagkeys c) e = Some [ts] -> sort_tags ts = p_tags p
+                  | None => True end) ->
+  route_in hash c g p = Some s -> eval_cond c cond p = true ->
+  In s (target_hint hash true v c g cond).
+Proof.
+  intros v c g cond p s Hor Hok Etyp Hwf Hwp Hfull Hr Hev.
+  destruct (route_in_all_alive _ _ _ _ Hwf Hr) as [_ Hall].
+  unfold target_hint. destruct cond as [e|]; [|exact Hall]. simpl in Hev.
+  destruct (cond_tags v (c_tagkeys c) e) as [tss|] eqn:Ect; [|exact Hall].
+  destruct tss as [|ts [|ts2 rest]]; try exact Hall.
+  assert (Hok' : v_and v = true \/ parser_image e) by (destruct Hok; auto).
+  destruct (cond_tags_sound _ _ p _ _ Hor Hok' Ect Hev) as [ts' [[<-|[]] Hsat]].
+  unfold route_in in Hr. destruct (wkey c p) as [ps|] eqn:Ew; [|discriminate]. rewrite Etyp in Hr.
+  unfold wkey in Ew. destruct (has_adj_dup (p_tags p)); [discriminate|].
+  unfold hash_arg in Hr.
+  destruct (c_sk c) as [|k0 sk0] eqn:Esk.
+  - inversion Ew; subst ps. rewrite (Hfull eq_refl ts eq_refl). rewrite Hr. left; reflexivity.
+  - destruct (snd (sel_keys (k0 :: sk0) (p_tags p))) eqn:Okp; [|discriminate]. inversion Ew; subst ps; clear Ew.
+    destruct (sel_keys_agree_proof (k0 :: sk0) (p_tags p) ts Hwp Okp Hsat) as [m [_ Hfullk]].
+    destruct (snd (sel_keys (k0 :: sk0) (sort_tags ts))) eqn:Okt; [|exact Hall].
+    rewrite (Hfullk eq_refl). rewrite Hr. left; reflexivity.
+Qed.
+
 (* ------------------------------------------------------------------ batch caches *)
 Lemma wf_group_set_sk : forall c sk g, wf_group c g -> wf_group (set_sk c sk) g.
 Proof. intros c sk g H. exact H. Qed.
